@@ -8,10 +8,11 @@ namespace Jap.ClassPath
 
 /-! ### what "valid for that very class" means -/
 
-/-- a stored value fits a parameter type: scalar parameters hold a literal of exactly the declared type
-    (class-typed parameters hold the result of the recursive adaptation; nothing more is claimed here) -/
+/-- a stored value fits a parameter type: scalar parameters hold a literal the declared type accepts (`coerceScalar`:
+    the declared type itself, or an int for a float) (class-typed parameters hold the result of the recursive
+    adaptation; nothing more is claimed here) -/
 def fits : PTy → Val → Prop
-  | .scalar t, v => ∃ tok, v = .lit t tok
+  | .scalar t, v => (coerceScalar t v).isSome = true
   | .cls _, _ => True
   | .optCls _, _ => True
 
@@ -22,23 +23,38 @@ def ArgsValid (params : List IParam) (ia : KV) : Prop :=
 theorem argsValid_nil (params : List IParam) : ArgsValid params [] := by
   intro e he; cases he
 
+theorem coerceScalar_idem (t : String) (v y : Val) (h : coerceScalar t v = some y) : coerceScalar t y = some y := by
+  cases v with
+  | lit t' tok =>
+    simp only [coerceScalar] at h
+    split at h
+    · rename_i ht
+      cases h
+      simp [coerceScalar, ht]
+    · split at h
+      · rename_i hf
+        cases h
+        have : t = "float" := by
+          simp only [Bool.and_eq_true, beq_iff_eq] at hf
+          exact hf.1
+        subst this
+        simp [coerceScalar]
+      · cases h
+  | spec _ _ _ => simp [coerceScalar] at h
+  | bare _ => simp [coerceScalar] at h
+  | nested _ _ => simp [coerceScalar] at h
+
 theorem fits_of_adaptValue (rec : String → Option Val → Val → Except Err Val) (ty : PTy) (prev : Option Val)
     (v y : Val) (h : adaptValueWith rec ty prev v = .ok y) : fits ty y := by
   cases ty with
   | scalar t =>
     unfold adaptValueWith at h
-    cases v with
-    | lit t' tok =>
-      simp only at h
-      split at h
-      · rename_i ht
-        cases h
-        have : t' = t := by simpa using ht
-        exact ⟨tok, by rw [this]⟩
-      · cases h
-    | spec _ _ _ => cases h
-    | bare _ => cases h
-    | nested _ _ => cases h
+    simp only at h
+    split at h
+    · rename_i y' hy
+      cases h
+      simp [fits, coerceScalar_idem t v y hy]
+    · cases h
   | cls b => trivial
   | optCls b => trivial
 
@@ -95,28 +111,15 @@ theorem keepArgs_valid (rec : String → Option Val → Val → Except Err Val) 
   · cases hk
   · rename_i p hp
     refine ⟨p, hp, ?_⟩
-    cases hok : adaptValueWith rec p.ty none e.2 with
-    | error err => simp [hok, isOk] at hk
-    | ok y =>
-      -- a scalar is returned unchanged
-      cases hty : p.ty with
-      | scalar t =>
-        rw [hty] at hok
-        unfold adaptValueWith at hok
-        cases hv : e.2 with
-        | lit t' tok =>
-          rw [hv] at hok
-          simp only at hok
-          split at hok
-          · rename_i ht
-            have : t' = t := by simpa using ht
-            exact ⟨tok, by rw [this]⟩
-          · cases hok
-        | spec _ _ _ => rw [hv] at hok; cases hok
-        | bare _ => rw [hv] at hok; cases hok
-        | nested _ _ => rw [hv] at hok; cases hok
-      | cls b => trivial
-      | optCls b => trivial
+    cases hty : p.ty with
+    | scalar t =>
+      rw [hty] at hk
+      simp only [adaptValueWith] at hk
+      cases hc : coerceScalar t e.2 with
+      | none => simp [hc, isOk] at hk
+      | some y => simp [fits, hc]
+    | cls b => trivial
+    | optCls b => trivial
 
 /-- every key that is not a parameter of THIS class makes the merge fail -/
 theorem mergeArgs_unknown (rec : String → Option Val → Val → Except Err Val) (params : List IParam) :
@@ -133,10 +136,10 @@ theorem mergeArgs_unknown (rec : String → Option Val → Val → Except Err Va
         · simp only at hn; rw [hn] at hp; cases hp
         · exact mergeArgs_unknown rec params r _ ⟨e, he', hn⟩
 
-/-- a value for a scalar parameter that is not a literal of the declared type makes the merge fail -/
+/-- a value for a scalar parameter that the declared type does not accept makes the merge fail -/
 theorem mergeArgs_illTyped (rec : String → Option Val → Val → Except Err Val) (params : List IParam) :
     ∀ (new acc : KV),
-      (∃ e ∈ new, ∃ p t, findParam params e.1 = some p ∧ p.ty = .scalar t ∧ ¬ ∃ tok, e.2 = .lit t tok) →
+      (∃ e ∈ new, ∃ p t, findParam params e.1 = some p ∧ p.ty = .scalar t ∧ coerceScalar t e.2 = none) →
       ∃ err, mergeArgs rec params new acc = .error err
   | [], _, ⟨e, he, _⟩ => by cases he
   | (k, x) :: r, acc, ⟨e, he, p, t, hp, hty, hbad⟩ => by
@@ -153,18 +156,7 @@ theorem mergeArgs_illTyped (rec : String → Option Val → Val → Except Err V
           rw [hp] at hp'
           cases hp'
           rw [hty] at hy
-          unfold adaptValueWith at hy
-          cases x with
-          | lit t' tok =>
-            simp only at hy
-            split at hy
-            · rename_i ht
-              have : t' = t := by simpa using ht
-              exact hbad ⟨tok, by rw [this]⟩
-            · cases hy
-          | spec _ _ _ => cases hy
-          | bare _ => cases hy
-          | nested _ _ => cases hy
+          simp [adaptValueWith, hbad] at hy
         · exact mergeArgs_illTyped rec params r _ ⟨e, he', p, t, hp, hty, hbad⟩
 
 /-! ### the end of the parse -/
@@ -297,5 +289,38 @@ end
 theorem instArgs_keys : ∀ (ia : KV) (log : List Ctor), (instArgs ia log).2.map (·.1) = ia.map (·.1)
   | [], log => by simp [instArgs]
   | (k, v) :: r, log => by simp [instArgs, instArgs_keys r]
+
+/-! ### short forms -/
+
+/-- `adapt` sees the given value only through `subclass_spec_as_namespace` -/
+theorem adapt_congr (E : ClassEnv) (fuel : Nat) (base : String) (prev : Option Val) (raw1 raw2 : Val)
+    (h : ∀ pc, asNamespace pc raw1 = asNamespace pc raw2) :
+    adapt E fuel base prev raw1 = adapt E fuel base prev raw2 := by
+  cases fuel with
+  | zero => rfl
+  | succ n => simp only [adapt, h]
+
+theorem resolveName_idem (E : ClassEnv) (base cp0 path : String) (hdot : ∀ c ∈ E.classes, isDotted c.path = true)
+    (h : resolveName E base cp0 = .ok path) : resolveName E base path = .ok path := by
+  unfold resolveName at h
+  split at h
+  · cases h
+    rename_i hd
+    simp [resolveName, hd]
+  · rename_i hnd
+    split at h
+    · cases h
+      rename_i hc
+      simp only [resolveName, hnd, hc]
+      rfl
+    · rename_i p hc
+      cases h
+      have hm : path ∈ ((E.classes.filter (fun c => !c.abstract && c.name == cp0 && isSubclass E c.path base)).map (·.path)).eraseDups := by
+        rw [hc]; exact List.mem_singleton.mpr rfl
+      rw [List.mem_eraseDups] at hm
+      obtain ⟨c, hcm, rfl⟩ := List.mem_map.mp hm
+      have := hdot c (List.mem_filter.mp hcm).1
+      simp [resolveName, this]
+    · cases h
 
 end Jap.ClassPath
